@@ -110,8 +110,14 @@ class HierDictDocument(DictDocument):
                 # read as an empty argument *list* below)
                 doc = {}
 
-            result_message = self._doc_to_object(ctx, body_class, doc,
+            if issubclass(body_class, ComplexModelBase):
+                result_message = self._doc_to_object(ctx, body_class, doc,
                                                                  self.validator)
+            else:
+                # bare style with a primitive: the message is the value itself
+                result_message = self._from_dict_value(ctx, class_name,
+                                               body_class, doc, self.validator)
+
             ctx.in_object = result_message
 
         else:
